@@ -34,6 +34,7 @@ let held : (int, int * int) Hashtbl.t = Hashtbl.create 8
 (* objects of the attributed string class (Z lines) *)
 let tstrings : (int, element list) Hashtbl.t = Hashtbl.create 8
 let arm2 : (int, bool) Hashtbl.t = Hashtbl.create 8
+let failnext : (int, bool) Hashtbl.t = Hashtbl.create 8
 let num t = let x = int_of_string t.v.(t.i) in t.i <- t.i + 1; x
 let str t = let x = t.v.(t.i) in t.i <- t.i + 1; x
 let split line = Array.of_list (List.filter (fun s -> s <> "") (String.split_on_char ' ' line))
@@ -148,7 +149,7 @@ let model_line out w line =
     match str t with
     | s when s.[0] = '#' -> ()
     | "CASE" -> Hashtbl.reset w.terms; Hashtbl.reset w.canvases; Hashtbl.reset w.screens; Hashtbl.reset w.parsers;
-        Hashtbl.reset tstrings; Hashtbl.reset held; Hashtbl.reset arm2
+        Hashtbl.reset tstrings; Hashtbl.reset held; Hashtbl.reset arm2; Hashtbl.reset failnext
     | "END" -> ()
     | "T" ->
         let id = num t in
@@ -156,10 +157,22 @@ let model_line out w line =
         if name = "new" then begin
           let tm = { beh = mk_beh (num t); st = init_tstate; ps = init_pstate; armed = false } in
           Hashtbl.replace w.terms id tm; out (pr_state tm.st) end
+        else if name = "failnext" then Hashtbl.replace failnext id true
         else begin
           let tm = Hashtbl.find w.terms id in
           let bytes =
-            if name = "arm" then (tm.armed <- true; Hashtbl.replace arm2 id false; [])
+            if (name = "elem" || name = "str") && (try Hashtbl.find failnext id with Not_found -> false) then begin
+              (* the single write of this operation fails: nothing is sent and nothing is
+                 remembered (the generator only places a failure before an operation that
+                 writes nothing but its glyph) *)
+              Hashtbl.replace failnext id false;
+              (match parse_op name t with
+               | Some o -> let (_, cmds) = step tm.beh tm.st o in
+                   out (if cmds = [] then "NOEXC"
+                        else if List.for_all (function Payload _ -> true | _ -> false) cmds then "EXC" else "EXC-PARTIAL")
+               | None -> ());
+              [] end
+            else if name = "arm" then (tm.armed <- true; Hashtbl.replace arm2 id false; [])
             else if name = "arm2" then (tm.armed <- true; Hashtbl.replace arm2 id true; [])
             else if name = "alive" then (let b = num t in out (Printf.sprintf "AL %d" (if b <> 0 then 1 else 0)); [])
             else if name = "recvq" then begin
@@ -229,6 +242,10 @@ let model_line out w line =
         (match str t with
          | "encode" | "ets" -> pr_string out (encode (unhex (str t)))
          | "ete" -> out ("E " ^ pr_elem (ete (unhex (str t))))
+         | "lookup" ->
+             let b = unhex (str t) in let len = num t in
+             let rec take i l = if i = 0 then [] else match l with [] -> [] | x :: r -> x :: take (i - 1) r in
+             out ("LK " ^ (match lookup_cs (take len b) with Some c -> string_of_int (int_of_n (cs_index c)) | None -> "-"))
          | "tostring" -> out ("TS " ^ hex (to_string (mk_string t)))
          | "ofbytes" | "ofstd" -> let s = of_bytes (unhex (str t)) in pr_string out s; out ("TS " ^ hex (to_string s))
          | "ofstdattr" ->
@@ -274,6 +291,7 @@ let model_line out w line =
              let g = glyph_of_cstr (unhex (str t)) in
              out (Printf.sprintf "G %d %d %d %d" (int_of_n (cs_index g.gcs)) (int_of_n g.g0) (int_of_n g.g1) (int_of_n g.g2))
          | "show" ->
+             ignore (num t);      (* the host stream's formatting flags: not the values' business *)
              let k = num t in
              let vals = List.init k (fun _ ->
                match str t with
@@ -313,6 +331,10 @@ let model_line out w line =
          | "eraserange" -> let a = num t in let b = num t in put (s_erase_range (get id) (nat_of_int a) (nat_of_int b))
          | "setat" -> let i = num t in put (s_set (get id) (nat_of_int i) (mk_elem t))
          | "swap" -> let o = num t in let a = get id and b = get o in Hashtbl.replace tstrings id b; Hashtbl.replace tstrings o a
+         | "mdump" -> ()
+         | "hold" -> Hashtbl.replace held (1000 + id) (num t, 0)
+         | "heldset" -> ignore (num t); let e = mk_elem t in let (i, _) = Hashtbl.find held (1000 + id) in
+             put (s_set (get id) (nat_of_int i) e)
          | "dump" -> let s = get id in
              out (Printf.sprintf "ZS %d %d" (List.length s) (if s = [] then 1 else 0));
              List.iter (fun e -> out ("E " ^ pr_elem e)) s;
@@ -391,7 +413,7 @@ let oracle_mode () =
           Printf.printf "FAIL case=%s term=%d cfg=%s op=%d code=%d\n" !case id name (int_of_n i) (int_of_n c)) fails)
         configs) obs;
     Hashtbl.reset behs; Hashtbl.reset obs; Hashtbl.reset wf; Hashtbl.reset sizes;
-    Hashtbl.reset canvases; Hashtbl.reset screens; Hashtbl.reset known_last in
+    Hashtbl.reset canvases; Hashtbl.reset screens; Hashtbl.reset known_last; Hashtbl.reset failnext in
   let pending : (int * oop) option ref = ref None in
   let wbytes = ref [] in
   (try while true do
@@ -408,6 +430,11 @@ let oracle_mode () =
           if name = "new" then begin
             Hashtbl.replace behs id (mk_beh (num t)); Hashtbl.replace obs id (ref []);
             Hashtbl.replace wf id (ref true); Hashtbl.replace sizes id (ref (N0, N0)) end
+          else if name = "failnext" then Hashtbl.replace failnext id true
+          else if (name = "elem" || name = "str") && (try Hashtbl.find failnext id with Not_found -> false) then
+            (* an operation whose first write failed: it reached neither the terminal nor
+               the library's belief, so it is no observation *)
+            Hashtbl.replace failnext id false
           else (match parse_op name t with
                 | Some o ->
                     let sz = Hashtbl.find sizes id in
